@@ -55,7 +55,8 @@ Inductive mpc :=
 (* the points of variation *)
 Record lifecycle := mkLC {
   lc_aclose_clears : bool;      (* _aclose_runners empties `_runners` *)
-  lc_end_clears : bool          (* the way out of _manage_runners empties `_runners` (also after a graceful stop) *)
+  lc_end_clears : bool;         (* the way out of _manage_runners empties `_runners` (also after a graceful stop) *)
+  lc_graceful_closes : bool     (* a gracefully stopped run goes through _aclose_runners as well *)
 }.
 
 Record sys := mkSys {
@@ -138,9 +139,9 @@ Definition gstep (lc : lifecycle) (s : sys) (l : label) : option sys :=
           end
       | Serving =>                 (* gather returns / raises: only once the runners have ended *)
           if mem (gen r) (live r) then None else Some (set_pc s (Ended failed))
-      | Ended true =>              (* except ...: _aclose_runners *)
-          Some (set_pc (if lc_aclose_clears lc then set_reg s (with_table r None) else s) (Closed true))
-      | Ended false => Some (set_pc s (Closed false))
+      | Ended failed' =>           (* _aclose_runners: on the failure / interrupt path, and after a graceful stop if so built *)
+          Some (set_pc (if (failed' || lc_graceful_closes lc) && lc_aclose_clears lc
+                        then set_reg s (with_table r None) else s) (Closed failed'))
       | Closed _ =>                (* finally: self.running.clear() *)
           Some (set_pc (set_reg s (with_running r false)) Cleared)
       | Cleared =>                 (* finally: with lock: self._runners = {} *)
@@ -155,9 +156,9 @@ Fixpoint grun (lc : lifecycle) (s : sys) (ls : list label) : option sys :=
   end.
 
 (* the life cycle of the current source, and the one of the pinned snapshot *)
-Definition lc_fixed : lifecycle := mkLC false true.      (* /repo since 37b254a *)
-Definition lc_snapshot : lifecycle := mkLC true false.   (* the pinned snapshot f3fbc69 *)
-Definition lc_interim : lifecycle := mkLC true true.     (* /repo at 23740f1 *)
+Definition lc_fixed : lifecycle := mkLC false true true.       (* /repo now *)
+Definition lc_snapshot : lifecycle := mkLC true false false.   (* the pinned snapshot f3fbc69 *)
+Definition lc_interim : lifecycle := mkLC true true false.     (* /repo at 23740f1 *)
 
 (* "shutting down": from the moment the runners have ended until the tables are consistent again *)
 Definition closing (pc : mpc) : bool :=
